@@ -495,18 +495,14 @@ def filter_dead_code_nodes(graph: G, entry_node: ProgramNode) -> G:
     Returns:
         The graph without the pruned dead nodes
     """
-    has_changed = True
-    while has_changed:
-        # Do this until we have reached a fixed point, i.e., removed all dead
-        # nodes from the graph.
-        has_changed = False
-        for node in graph.nodes:
-            if node != entry_node and not graph.get_predecessors(node):
-                # The only node in the graph that is allowed to have no predecessor
-                # is the entry node. All other nodes without predecessors are considered
-                # dead code and thus removed.
-                graph.graph.remove_node(node)
-                has_changed = True
+    # Everything that cannot be reached from the entry node is dead code.  This also
+    # removes dead cycles, e.g., a loop in an unreachable exception handler, whose
+    # nodes all have a predecessor.
+    live_nodes = graph.get_descendants(entry_node)
+    live_nodes.add(entry_node)
+    for node in graph.nodes:
+        if node not in live_nodes:
+            graph.graph.remove_node(node)
     return graph
 
 
@@ -712,7 +708,9 @@ class CFG(ProgramGraph):
         exit_nodes.update(
             loop_entry
             for cycle in nx.simple_cycles(cfg.graph)
-            if cfg.get_descendants(
+            # Cycles in dead code are removed afterwards, they need no exit
+            if cycle[0] in distances_to_entry_point
+            and cfg.get_descendants(
                 loop_entry := min(cycle, key=lambda node: distances_to_entry_point[node])
             ).isdisjoint(exit_nodes)
         )
